@@ -630,6 +630,26 @@ theorem exhaustiveM_fst (Γ : Env) (en : String) (gs : GuardList) (m : Marks) :
     rw [contains_markGuards, contains_unmarkEnum]
     simp
 
+/-! ### a function item needs a name; a main unit needs a function -/
+
+theorem declFuncs_noname (Γ : Env) (f : Func) (fpost : FuncList) (hn : f.name = "") :
+    declFuncs Γ (.cons f fpost) = .error ⟨f.ln, .funcNoName⟩ := by
+  simp [declFuncs, addFunc, hn]
+
+theorem declFuncs_app_noname (Γ Γ1 : Env) (fpre : FuncList) (ss : List Sig) (f : Func) (fpost : FuncList)
+    (hpre : declFuncs Γ fpre = .ok (Γ1, ss)) (hn : f.name = "") :
+    declFuncs Γ (fpre.app (.cons f fpost)) = .error ⟨f.ln, .funcNoName⟩ := by
+  rw [declFuncs_app, hpre]
+  simp [declFuncs_noname Γ1 f fpost hn]
+
+/-- a nameless function item in a block -/
+theorem tc_seq_noname (Γ Γ1 Γ2 : Env) (ln : Ln) (pre post : SeqList) (fpre fpost : FuncList) (ss : List Sig)
+    (f : Func) (hpre : seqEnv Γ.push pre = .ok Γ1) (hf : declFuncs Γ1 fpre = .ok (Γ2, ss)) (hn : f.name = "") :
+    tc Γ (.seq ln (pre.app (.cons (.funcs (fpre.app (.cons f fpost))) post))) = .error ⟨f.ln, .funcNoName⟩ := by
+  have h : tcSeq Γ1 (.cons (.funcs (fpre.app (.cons f fpost))) post) = .error ⟨f.ln, .funcNoName⟩ := by
+    simp [tcSeq, declFuncs_app_noname Γ1 Γ2 fpre ss f fpost hf hn]
+  simp [tc, tcSeq_app_error pre Γ.push Γ1 _ _ hpre h]
+
 /-! ## function-level rules (`tcRest`) -/
 
 theorem tcRest_unknown_exc (Γf : Env) (s : Sig) (ln : Ln) (name : String) (ps : List Param) (rc : PCst)
